@@ -11,7 +11,7 @@ import (
 // concrete media types that can have a registered consumer
 var concrete = []string{"application/json", "text/plain", "text/csv", "application/xml", "a/b", "application/vnd.x+json", "image/png", "application/octet-stream"}
 
-var wildcards = []string{"text/*", "application/*", "*/*", "a/*", "image/*"}
+var wildcards = []string{"text/*", "application/*", "*/*", "*/*", "a/*", "image/*"}
 
 var paramEntries = []string{"application/json; charset=utf-8", "text/plain;v=1", "text/csv ; header=present", "text/*;q=0.5", "a/b;x=\"y\""}
 
@@ -25,8 +25,8 @@ var paramForms = []string{"; charset=utf-8", ";charset=utf-8", " ;  Charset=\"UT
 
 var methods = []string{"post", "put", "patch", "delete", "get", "head", "options", "post", "put"}
 
-var bodyKinds = []string{"wire-cl", "wire-cl", "wire-cl", "wire-chunked", "wire-chunked", "direct-sized", "direct-unsized", "direct-minus1",
-	"wire-none", "wire-cl0", "wire-chunked-empty", "direct-empty", "direct-nobody", "direct-nil"}
+var bodyKinds = []string{"wire-cl", "wire-cl", "wire-cl", "wire-cl", "wire-chunked", "wire-chunked", "wire-chunked", "direct-sized", "direct-sized", "direct-unsized", "direct-unsized",
+	"direct-minus1", "direct-minus1", "wire-none", "wire-cl0", "wire-chunked-empty", "direct-empty", "direct-nobody", "direct-nil"}
 
 var payloads = []string{"{}", `{"a":1}`, "x", "null", "a,b\n1,2\n", "<x/>", " ", "\x00", "0123456789abcdef0123456789", "\xff\xfe"}
 
@@ -64,7 +64,7 @@ func genConsumes(t *rapid.T) []string {
 		switch rapid.IntRange(0, 9).Draw(t, "entry-kind") {
 		case 0, 1, 2:
 			out = append(out, rapid.SampledFrom(wildcards).Draw(t, "wildcard"))
-		case 3:
+		case 3, 4:
 			out = append(out, rapid.SampledFrom(paramEntries).Draw(t, "param-entry"))
 		default:
 			out = append(out, rapid.SampledFrom(concrete).Draw(t, "concrete"))
